@@ -2,7 +2,6 @@ package c04
 
 import (
 	"testing"
-	"time"
 
 	"verif/harness/inproc"
 )
@@ -14,6 +13,10 @@ func FuzzRtmpServerSession(f *testing.F) {
 		c := Case{Handshake: "simple", Stage: st, Stream: "s1", Trunc: -1}
 		f.Add(byte(0), render(c))
 		c.Msgs = []Msg{{Kind: "raw", Type: 4, RawHex: "000600000001", Csid: 2}, {Kind: "raw", Type: 9, RawHex: "17010000000000000565aabbccdd", Csid: 6, Msid: 1}}
+		f.Add(byte(0), render(c))
+		// two media messages interleaved chunk by chunk with a Set Chunk Size in between
+		c.Msgs = []Msg{{Kind: "ilv", Ilv: &Ilv{Parts: []Msg{{Kind: "raw", Type: 9, RawSeed: 1, RawLen: 300, Csid: 6, Msid: 1}, {Kind: "raw", Type: 8, RawSeed: 2, RawLen: 200, Csid: 4, Msid: 1}},
+			Order: []int{0, 1, 0, 1}, Scs: []IlvScs{{After: 2, Size: 64, Adopt: true}}}}}
 		f.Add(byte(0), render(c))
 	}
 	f.Add(byte(1), []byte{0x02, 0, 0, 0, 0, 0, 4, 5, 0, 0, 0, 0, 0, 0, 0, 1})
@@ -33,13 +36,13 @@ func FuzzRtmpServerSession(f *testing.F) {
 		wire := append(append([]byte(nil), prefixes[int(sel)%len(prefixes)]...), data...)
 		_, _ = conn.Write(wire)
 		conn.CloseWrite()
-		if !conn.WaitPeerDone(20 * time.Second) {
-			if v := s.PanicViolation(); v != nil {
-				t.Fatalf("FUZZ-VIOLATION sig=%s %s", v.Sig, v.Detail)
-			}
-			t.Fatalf("FUZZ-VIOLATION sig=session-never-returns")
+		// a session that is parked after EOF is a violation; one that is still running on a loaded machine is
+		// abandoned (the fuzz engine counts the execution, nothing is reported)
+		v, _ := waitSessionEnd(s, conn)
+		if v == nil {
+			v = s.PanicViolation()
 		}
-		if v := s.PanicViolation(); v != nil {
+		if v != nil {
 			t.Fatalf("FUZZ-VIOLATION sig=%s %s", v.Sig, v.Detail)
 		}
 	})
